@@ -143,6 +143,11 @@ func (t *timeoutConn) Read(p []byte) (int, error) {
 	return t.Conn.Read(p)
 }
 
+// ReadTimeoutUnit is shared with C06 (the stream must be delivered whole across temporary transport errors).
+func ReadTimeoutUnit(suite uint16, libIsClient bool) harness.Unit {
+	return readTimeoutUnit(suite, libIsClient)
+}
+
 func readTimeoutUnit(suite uint16, libIsClient bool) harness.Unit {
 	return harness.Unit{Name: fmt.Sprintf("transport-read-timeout/%04x/library-client=%v", suite, libIsClient), Run: func(c *harness.Ctx) {
 		sizes := []int{1, 100, 3000, 40000, 7, 16384, 5}
